@@ -241,6 +241,35 @@ example :
       [.arrive 0, .arrive 1, .join 0, .resolve 0 .udp [⟨(.msg ⟨7, some ⟨1, 0, 1, 1⟩, true, 0, false, 5, false⟩), .fail, .accept⟩], .join 1, .wake 1, .wake 0]
     s.calls.length = 1 ∧ s.flights.length = 2 ∧ s.outs.length = 2 := by decide
 
+/-- **The leader's departure does not fail the followers** (nor anybody's departure anybody else): a client whose
+own request context ends - as the leader of a running resolution, as a follower blocked in `sf.Do`, at any point of
+any interleaving - changes nothing but the ghost list of who is gone.  Every history yields exactly the outcomes,
+flights, cache and program counters of the same history with all departures erased; so, with
+`singleflight_result_reaches_every_waiter` (which holds for every history, departures included), every waiter
+receives the result of the one resolution whether or not the client that started it is still there. -/
+theorem leader_departure_does_not_fail_followers (cs : List Client) (as : List Act) :
+    let s := run codeCfg (init cs) as
+    let s' := run codeCfg (init cs) (as.filter fun a => !a.isGone)
+    s.outs = s'.outs ∧ s.flights = s'.flights ∧ s.cache = s'.cache ∧ s.pcs = s'.pcs ∧ s.calls = s'.calls := by
+  intro s s'
+  have h := strip_run codeCfg as (init cs)
+  have hs' : s' = (run codeCfg (init cs) as).strip := by rw [h]; rfl
+  rw [hs']
+  exact ⟨rfl, rfl, rfl, rfl, rfl⟩
+
+/-- … and the variant that binds the shared resolution to the LEADER's request context
+(`context.WithTimeout(ctx, 5s)` inside `sf.Do`) fails it: the leader (id 7) goes away while the upstream is working;
+the upstream then answers correctly, but the exchange was cancelled with the leader's context and the follower
+(id 8, still there) gets an error - whereas the code as it is serves it the answer (non-vacuity of the theorem:
+a history with a departure and a live follower). -/
+theorem leader_bound_context_fails_followers :
+    let cs : List Client := [⟨7, ⟨1, 0, 1, 1⟩, 0, .forward, 1⟩, ⟨8, ⟨1, 2, 1, 1⟩, 0, .forward, 1⟩]
+    let as : List Act := [.arrive 0, .join 0, .arrive 1, .join 1, .gone 0,
+      .resolve 0 .udp [⟨.msg ⟨7, some ⟨1, 0, 1, 1⟩, true, 0, false, 5, false⟩, .fail, .accept⟩], .wake 1]
+    ((as.foldl (stepLeaderBound codeCfg) (init cs)).outs = [(1, .error .upstream)]) ∧
+    ((run codeCfg (init cs) as).outs = [(1, .wrote ⟨8, some ⟨1, 0, 1, 1⟩, 0, false, 5, .cache⟩)]) ∧
+    (run codeCfg (init cs) as).gone = [0] := by decide
+
 /-- **… whose result reaches every waiter, once.** A client blocked in `sf.Do` on a finished flight
 can return; when it does it is done and has exactly one outcome, which is an error only if the
 flight's resolution failed; and no client ever has two outcomes. -/
